@@ -1,9 +1,12 @@
 import Driver.Ops.TensorsCore
 import Driver.Ops.TensorsAvg
-/-! the `tensors` area: `t_*` (pydrex.tensors, C11), `va_*` (voigt_averages, C10) -/
+import Driver.Ops.TensorsSym
+/-! the `tensors` area: `t_*` (pydrex.tensors, C11), `va_*` (voigt_averages, C10),
+`ec_*` (elasticity_components, C12) -/
 namespace Ops.Tensors
 
 def handle (toks : List String) : Option String :=
-  (Ops.TensorsCore.handle toks).orElse fun _ => Ops.TensorsAvg.handle toks
+  ((Ops.TensorsCore.handle toks).orElse fun _ => Ops.TensorsAvg.handle toks).orElse fun _ =>
+    Ops.TensorsSym.handle toks
 
 end Ops.Tensors
